@@ -281,3 +281,42 @@ func oracleFile(prop string) string {
 	}
 	return prop + ".go.txt"
 }
+
+// replayOnly re-runs the oracle(s) of a property on the current tree with the
+// model hints recorded in a replay file; exit status 1 when a violation is reproduced.
+func replayOnly(e *Engine, prop, file string) int {
+	data, err := os.ReadFile(file)
+	if err != nil {
+		fmt.Fprintln(os.Stderr, "govc:", err)
+		return 2
+	}
+	var rec map[string]interface{}
+	if err := json.Unmarshal(data, &rec); err != nil {
+		fmt.Fprintln(os.Stderr, "govc:", err)
+		return 2
+	}
+	hints, _ := rec["model_hints"].(map[string]interface{})
+	work, _ := os.MkdirTemp("", "govc-replay-")
+	defer os.RemoveAll(work)
+	fmt.Printf("replaying %v (%v)\n", rec["obligation"], rec["clause"])
+	ran := false
+	for _, f := range oracleFiles(prop) {
+		oracle := filepath.Join("/verif/oracle", f)
+		if _, err := os.Stat(oracle); err != nil {
+			continue
+		}
+		ran = true
+		rep := map[string]interface{}{}
+		if e.runOracle(prop, oracle, hints, rep, work) {
+			fmt.Printf("reproduced on the real code: %v\n", rep["failing_input"])
+			fmt.Printf("VIOLATION property=%s replay=%s\n", prop, file)
+			return 1
+		}
+	}
+	if !ran {
+		fmt.Println("no executable oracle for this property; the replay file names the failed obligation and carries the solver output")
+		return 0
+	}
+	fmt.Println("not reproduced on the current tree (hinted input plus seeded search)")
+	return 0
+}
